@@ -154,13 +154,15 @@ def r20_3(ctx: Ctx):
     obs.append(ctx.ob("R20.3", f, loops[0] if loops else f.node, status=OK if ok_loop else VIOLATION, detail="one loop over deme.children" if ok_loop else "children renderer does not iterate deme.children", construct="children-loop"))
     if ok_loop:
         child = loops[0].target.id
-        skips = [n for n in ast.walk(loops[0]) if isinstance(n, ast.Continue)]
-        conds = [n for n in loops[0].body if isinstance(n, ast.If) and any(isinstance(x, ast.Continue) for x in ast.walk(n))]
-        ok_skip = len(skips) == len(conds) == 1 and norm(conds[0].test).replace(" ", "") in (f"{child}.metaepoch_count==0", f"0=={child}.metaepoch_count", f"not{child}.metaepoch_count")
-        if not skips:
+        # normalised form: `if child.metaepoch_count != 0: <render>` (the early `continue` is inverted into this guard)
+        fd0 = [c for c in ast.walk(loops[0]) if isinstance(c, ast.Call) and norm(c.func) == "format_deme"]
+        guards = [n for n in loops[0].body if isinstance(n, ast.If) and fd0 and any(x is fd0[0] for x in ast.walk(n))]
+        if not guards:
             obs.append(ctx.ob("R20.3", f, loops[0], status=VIOLATION, detail="demes that never ran are no longer omitted from the tree", construct="skip"))
         else:
-            obs.append(ctx.ob("R20.3", f, conds[0] if conds else skips[0], status=OK if ok_skip else VIOLATION, detail="only children with metaepoch_count == 0 are omitted" if ok_skip else f"children are omitted under `{norm(conds[0].test) if conds else '?'}` (must be exactly metaepoch_count == 0)", construct="skip"))
+            t = norm(guards[0].test).replace(" ", "")
+            ok_skip = len(guards) == 1 and not guards[0].orelse and t in (f"{child}.metaepoch_count!=0", f"0!={child}.metaepoch_count", f"{child}.metaepoch_count>0", f"{child}.metaepoch_count", f"not{child}.metaepoch_count==0")
+            obs.append(ctx.ob("R20.3", f, guards[0], status=OK if ok_skip else VIOLATION, detail="only children with metaepoch_count == 0 are omitted" if ok_skip else f"children are rendered only under `{norm(guards[0].test)}` (must be exactly metaepoch_count != 0)", construct="skip"))
         rec = [c for c in ast.walk(loops[0]) if isinstance(c, ast.Call) and norm(c.func) == "format_deme_children_tree"]
         fd = [c for c in ast.walk(loops[0]) if isinstance(c, ast.Call) and norm(c.func) == "format_deme"]
         ok_rec = len(rec) == 1 and rec[0].args and norm(rec[0].args[0]) == child and any(norm(k.value) == ps[2] for k in rec[0].keywords if k.arg == ps[2]) or (len(rec) == 1 and len(rec[0].args) >= 3 and norm(rec[0].args[2]) == ps[2] and norm(rec[0].args[0]) == child)
